@@ -9,7 +9,7 @@ import common as C, alpha
 facts = C.ensure_facts()
 os.makedirs(alpha.NAMES_DIR, exist_ok=True)
 for u in C.UNIT_FLOORS:
-    d = facts.unit(u).data
+    d = json.load(open(os.path.join(facts.dir, u + ".json")))   # the raw facts, as alpha.canonicalise sees them
     t = alpha.make_table(d)
     with open(os.path.join(alpha.NAMES_DIR, u + ".json"), "w") as f:
         json.dump(t, f, separators=(",", ":"), sort_keys=True)
